@@ -1,6 +1,53 @@
-(* Ops/C17.v — protocol entry points for property C17 (stub until the model is built). *)
-From Coq Require Import List String.
-From PrefVerif Require Import Lib.Val.
+(* Ops/C17.v — protocol entry points for property C17 (from_ordinal, factorise_instance). *)
+From Coq Require Import List ZArith NArith String.
+From PrefVerif Require Import Lib.Val Lib.Dec Model.FromOrdinal.
 Import ListNotations.
+Open Scope string_scope.
 
-Definition ops : optable := [].
+Definition d_tuple2 (v : val) : list (list N) := dlist (dlist dN) v.      (* an order or a ballot *)
+Definition d_text (v : val) : text := dlist dN v.
+Definition e_tuple2 (b : list (list N)) : val := elist (elist eN) b.
+Definition e_text (t : text) : val := elist eN t.
+
+(* payload: (num_alternatives ((alt name) ...) ((order mult) ...) nic st rst)
+   nic, st : () for None, ((n ...)) for a list;  rst : () for None, ((table ...)) for a list of
+   relative truncators, each given as the table  n |-> int(ceil(n * t)),  n = 0 .. max len(order) *)
+(* the last field (the padded ballot of every source order, in source order) is not compared by the
+   harness; it is used for its statistics (which orders collapse) and recorded in replay files *)
+Definition e_cat_inst (per_order : list ballot) (c : cat_inst) : val :=
+  VL [ elist e_tuple2 (ci_preferences c);
+       elist (epair e_tuple2 eN) (ci_multiplicity c);
+       eN (ci_num_voters c);
+       eN (ci_num_unique_preferences c);
+       eN (ci_num_categories c);
+       elist (epair e_text e_text) (ci_categories_name c);
+       eN (ci_num_alternatives c);
+       elist (epair eN e_text) (ci_alternatives_name c);
+       elist e_tuple2 per_order ].
+
+Definition op_from_ordinal (v : val) : val :=
+  let src := {| os_num_alternatives := dN (dnth 0 v);
+                os_alternatives_name := dlist (dpair dN d_text) (dnth 1 v);
+                os_multiplicity := dlist (dpair d_tuple2 dN) (dnth 2 v) |} in
+  let nic := doption (dlist dN) (dnth 3 v) in
+  let st := doption (dlist dN) (dnth 4 v) in
+  let rst := doption (dlist (dlist dN)) (dnth 5 v) in
+  eresult (e_cat_inst (fo_ballots nic st rst (os_multiplicity src))) (from_ordinal src nic st rst).
+
+(* payload: (reset prefs ((ballot mult) ...)) -> (prefs mult num_voters num_unique_preferences)
+   (factorise_instance followed by recompute_cardinality_param) *)
+Definition op_factorise (v : val) : val :=
+  let '(prefs, mult) := factorise_instance (dbool (dnth 0 v)) (dlist d_tuple2 (dnth 1 v))
+                                           (dlist (dpair d_tuple2 dN) (dnth 2 v)) in
+  VL [ elist e_tuple2 prefs; elist (epair e_tuple2 eN) mult;
+       eN (sumN (map snd mult)); eN (lenN (dedup prefs)) ].
+
+(* payload: (((order mult) ...) prefs ((ballot mult) ...) k) -> (conv_check  all ballots trailing_ok) *)
+Definition op_conv_check (v : val) : val :=
+  VL [ ebool (conv_check (dlist (dpair d_tuple2 dN) (dnth 0 v)) (dlist d_tuple2 (dnth 1 v))
+                         (dlist (dpair d_tuple2 dN) (dnth 2 v)) (dN (dnth 3 v)));
+       ebool (forallb trailing_ok (dlist d_tuple2 (dnth 1 v))) ].
+
+Definition ops : optable :=
+  [ ("c17.from_ordinal", op_from_ordinal); ("c17.factorise", op_factorise);
+    ("c17.conv_check", op_conv_check) ].
